@@ -66,7 +66,7 @@ func (c *c14Case) bannerMay() bool {
 func genC14(t *sim.Tape, i int) *c14Case {
 	c := &c14Case{}
 	c.Method = []string{"GET", "GET", "GET", "POST", "PUT"}[t.Choice(5, "method")]
-	c.Target = fmt.Sprintf("/doc/m%03d%s", i, []string{"", "?a=1&b=two", "?q=%3Chead%3E"}[t.Choice(3, "query")])
+	c.Target = fmt.Sprintf("%s/m%03d%s", []string{"/doc", "/doc", "/doc", "/doc//sub", "/doc/./x"}[t.Choice(5, "dir")], i, []string{"", "?a=1&b=two", "?q=%3Chead%3E"}[t.Choice(3, "query")])
 	c.Accept = []string{"text/html,application/xhtml+xml,application/xml;q=0.9,*/*;q=0.8", "text/html", "*/*", "application/json", ""}[t.Pick("accept", 4, 2, 2, 1, 1)]
 	c.FetchDst = []string{"", "document", "iframe", "empty"}[t.Pick("fetchdest", 4, 2, 1, 1)]
 	c.FetchMod = []string{"", "navigate", "nested-navigate", "cors"}[t.Pick("fetchmode", 4, 2, 1, 1)]
